@@ -560,7 +560,23 @@ def check_search(w, i, t, op, o, checks):
     s = o["search"]
     if s["count"] != len(s["items"]):
         w.flag(i, "count", "Count %d differs from the number of returned items %d" % (s["count"], len(s["items"])))
-    if op.get("limit") or op.get("startKey"):
+    if op.get("startKey"):
+        return
+    if op.get("limit"):
+        # one page: at most Limit items, all of them selected by the request; and a page without
+        # LastEvaluatedKey is the complete result
+        if "search" in checks or "pages" in checks:
+            if len(s["items"]) > op["limit"]:
+                w.flag(i, "page-too-long", "a page holds %d items, Limit is %d" % (len(s["items"]), op["limit"]))
+            exp = expected_search(w, t, op)
+            if exp is not None:
+                have = [repr(canon_item(x)) for x in exp]
+                extra = [x for x in s["items"] if repr(canon_item(x)) not in have]
+                if extra:
+                    w.flag(i, "search-content", "a page returned an item the request does not select", got=[json.dumps(x)[:100] for x in extra[:3]])
+                elif not s["lek"] and not same_multiset(exp, s["items"]):
+                    w.flag(i, "incomplete-without-lek", "the response has no LastEvaluatedKey but returned %d of the %d items the request selects"
+                           % (len(s["items"]), len(exp)), got=[json.dumps(x)[:100] for x in s["items"][:4]], want=[json.dumps(x)[:100] for x in exp[:4]])
         return
     is_index = bool(op.get("index"))
     want_check = ("search" in checks) or ("index" in checks and is_index and op.get("scan") and not op.get("filter")) or \
